@@ -573,9 +573,21 @@ func (e *Engine) Discharge(par int) {
 		}
 		o.QueryNo = i
 		wg.Add(1)
-		sem <- struct{}{}
 		go func(o *Obligation) {
 			defer wg.Done()
+			if o.Cover && o.Goal == "true" {
+				// reachability covers: one satisfiable path per group is enough; the paths of a group are tried one
+				// after the other (model finding under quantifiers is slow, the first paths usually suffice), and at
+				// most coverTries of them
+				cm := coverLock(o.Name)
+				cm.Lock()
+				defer cm.Unlock()
+				if coverAttempt(o.Name) > coverTries {
+					o.Status = "skipped"
+					return
+				}
+			}
+			sem <- struct{}{}
 			defer func() { <-sem }()
 			if o.RawQuery != "" {
 				// a self-contained query (string-theory lemmas): unsat = discharged
@@ -630,7 +642,11 @@ func (e *Engine) Discharge(par int) {
 			if o.Cover {
 				qname = "cover_" + qname
 			}
-			r := Solve(e.TmpDir, qname, preludeG+b.String(), e.TimeoutS, e.Agree && !o.Cover)
+			tmo := e.TimeoutS
+			if o.Cover && o.Goal == "true" && tmo > 6 {
+				tmo = 6 // reachability witnesses: found fast or not at all
+			}
+			r := Solve(e.TmpDir, qname, preludeG+b.String(), tmo, e.Agree && !o.Cover)
 			if o.Cover && r.Status == "sat" {
 				// reachability witness; the library axioms (be64 injective, fixed lengths) are a conservative
 				// extension of any model of the ground instances
@@ -642,7 +658,7 @@ func (e *Engine) Discharge(par int) {
 			// uninterpreted sort, so the model extends.
 			qf := !strings.Contains(b.String(), "(forall ") && !strings.Contains(b.String(), "(exists ")
 			if !(r.Status == "unsat" && !o.Cover) && !(r.Status == "sat" && qf) {
-				r2 := Solve(e.TmpDir, fmt.Sprintf("q%d_%s_ax", o.QueryNo, o.Name), prelude+b.String(), e.TimeoutS, e.Agree)
+				r2 := Solve(e.TmpDir, fmt.Sprintf("q%d_%s_ax", o.QueryNo, o.Name), prelude+b.String(), tmo, e.Agree)
 				r2.Secs += r.Secs
 				switch {
 				case r2.Status == "unsat" || r2.Status == "sat":
